@@ -6,5 +6,7 @@ CONSTANTS MaxVer = 2
           TornHeader = TRUE
           SyncBeforeFlip = TRUE
           PickNewer = FALSE
+          SavepointTwoPhase = FALSE
+          SavepointPreFlush = TRUE
 INVARIANTS TypeOK RecoveryOk PrimaryServable AckedDurable
 CHECK_DEADLOCK FALSE
